@@ -10,6 +10,6 @@ import (
 
 func init() {
 	sim.FineBuild = true
-	setStmtHook = func(f func()) { simhook.Fn = f }
+	setStmtHook = func(f func(kind int)) { simhook.Fn = f }
 	setHashSeed = func(base uint64) { simhook.SeedBase, simhook.SeedCounter = base, 0 }
 }
